@@ -30,6 +30,9 @@ def run(tier):
     r3 = ck.rng.fork("itermut")
     plist += [{"name": "itermut/%d" % i, "steps": [("snip", feat_data.iter_mutation_program(r3.fork(str(i))))], "mods": []}
               for i in range(300 if quick else 10000 * common.TS)]
+    r4 = ck.rng.fork("progress")
+    plist += [{"name": "progress/%d" % i, "steps": [("snip", feat_data.iter_progress_program(r4.fork(str(i))))], "mods": []}
+              for i in range(300 if quick else 10000 * common.TS)]
     prof = profiles(ck.findings.avoid_tags())[0][1]
     r2 = ck.rng.fork("mixed")
     for i in range(400 if quick else 10000 * common.TS):
